@@ -110,6 +110,48 @@ func init() {
 		}
 		bothRan := map[string]int{}
 		seenGN := map[string]bool{}
+		// the six S/MIME key-usage bodies on their whole domain (Kernels/SmimeKu.v)
+		smimeKuCases(func(term, tag string, desc map[string]interface{}) {
+			out.Add("smimeku", Case{Coq: term, Tag: tag, Desc: desc})
+		})
+		kuMaskCases(func(term, tag string, desc map[string]interface{}) {
+			out.Add("kumasks", Case{Coq: term, Tag: tag, Desc: desc})
+		})
+		for i, der := range policyProbes() {
+			if c, err := safeParseCert(der); err == nil {
+				if term, tag, ok := policyCase(c); ok && !seenGN["pol"+term] {
+					seenGN["pol"+term] = true
+					out.Add("policies", Case{Coq: term, Tag: tag, Desc: map[string]interface{}{"object": fmt.Sprintf("certificatePolicies probe %d", i), "der": hexs(der)}})
+				}
+			}
+		}
+		for i, c := range ncFormProbes() {
+			if term, tag, ok := ncFormCase(c); ok && !seenGN["ncf"+term] {
+				seenGN["ncf"+term] = true
+				out.Add("ncform", Case{Coq: term, Tag: tag, Desc: map[string]interface{}{"object": fmt.Sprintf("name-constraints form probe %d", i)}})
+			}
+		}
+		for i, c := range headerProbes() {
+			if term, tag, ok := headerCase(c); ok && !seenGN["hdr"+headerKey(c)] {
+				seenGN["hdr"+headerKey(c)] = true
+				out.Add("header", Case{Coq: term, Tag: tag, Desc: map[string]interface{}{"object": fmt.Sprintf("fixed-field probe %d", i), "serial": c.SerialNumber.String(), "version": c.Version}})
+			}
+		}
+		// directly built certificate values carrying each of the fourteen extensions critical / not critical in the three roles
+		for i, c := range critCerts() {
+			if term, tag, ok := critCase(c); ok && !seenGN["crit"+term] {
+				seenGN["crit"+term] = true
+				out.Add("crit", Case{Coq: term, Tag: tag, Desc: map[string]interface{}{"object": fmt.Sprintf("built extension set %d", i), "is_ca": c.IsCA, "self_signed": c.SelfSigned}})
+			}
+			if term, tag, ok := caKuCase(c); ok && !seenGN["caku"+term] {
+				seenGN["caku"+term] = true
+				out.Add("caku", Case{Coq: term, Tag: tag, Desc: map[string]interface{}{"object": fmt.Sprintf("built extension set %d", i)}})
+			}
+			if term, tag, ok := extPresenceCase(c); ok && !seenGN["xp"+term] {
+				seenGN["xp"+term] = true
+				out.Add("extpres", Case{Coq: term, Tag: tag, Desc: map[string]interface{}{"object": fmt.Sprintf("built extension set %d", i)}})
+			}
+		}
 		check := func(c *x509.Certificate, what string, detail map[string]interface{}) {
 			tick()
 			// the seventeen general-name lints against their full model (Kernels/GeneralNames.v)
@@ -125,6 +167,31 @@ func init() {
 			if term, tag, ok := caKuCase(c); ok && !seenGN["caku"+term] {
 				seenGN["caku"+term] = true
 				out.Add("caku", Case{Coq: term, Tag: tag, Desc: map[string]interface{}{"object": what, "is_ca": c.IsCA, "self_signed": c.SelfSigned, "key_usage": int(c.KeyUsage)}})
+			}
+			// four certificatePolicies lints (Kernels/Policies.v)
+			if term, tag, ok := policyCase(c); ok && !seenGN["pol"+term] {
+				seenGN["pol"+term] = true
+				out.Add("policies", Case{Coq: term, Tag: tag, Desc: map[string]interface{}{"object": what, "policies": fmt.Sprint(c.PolicyIdentifiers)}})
+			}
+			// the six lints about the form of nameConstraints (Kernels/NcForm.v)
+			if term, tag, ok := ncFormCase(c); ok && !seenGN["ncf"+term] {
+				seenGN["ncf"+term] = true
+				out.Add("ncform", Case{Coq: term, Tag: tag, Desc: map[string]interface{}{"object": what}})
+			}
+			// the seven fixed-field lints (Kernels/Header.v)
+			if term, tag, ok := headerCase(c); ok && !seenGN["hdr"+headerKey(c)] {
+				seenGN["hdr"+headerKey(c)] = true
+				out.Add("header", Case{Coq: term, Tag: tag, Desc: map[string]interface{}{"object": what, "serial": c.SerialNumber.String(), "version": c.Version}})
+			}
+			// ten extension-presence lints with their applicability (Kernels/ExtPresence.v)
+			if term, tag, ok := extPresenceCase(c); ok && !seenGN["xp"+term] {
+				seenGN["xp"+term] = true
+				out.Add("extpres", Case{Coq: term, Tag: tag, Desc: map[string]interface{}{"object": what, "is_ca": c.IsCA, "self_signed": c.SelfSigned}})
+			}
+			// the twenty criticality lints with their applicability (Kernels/Crit.v)
+			if term, tag, ok := critCase(c); ok && !seenGN["crit"+term] {
+				seenGN["crit"+term] = true
+				out.Add("crit", Case{Coq: term, Tag: tag, Desc: map[string]interface{}{"object": what, "is_ca": c.IsCA, "self_signed": c.SelfSigned}})
 			}
 			rs := zlint.LintCertificate(c).Results
 			for _, p := range lintPairs {
